@@ -964,7 +964,16 @@ func vrlStartCovert(chunks []int, end string) *vrlCovertServer {
 		go func() {
 			defer close(rdone)
 			buf := make([]byte, 4096)
+			if end == "eof-slow" {
+				// a covert that answers early, half-closes and only THEN starts consuming a large upload, slowly: at the moment the
+				// station tears the tunnel down its socket still holds bytes it has already counted as relayed
+				buf = make([]byte, 64*1024)
+				time.Sleep(300 * time.Millisecond)
+			}
 			for {
+				if end == "eof-slow" {
+					time.Sleep(time.Millisecond)
+				}
 				tc.SetReadDeadline(time.Now().Add(8 * time.Second))
 				n, err := tc.Read(buf)
 				s.received = append(s.received, buf[:n]...)
@@ -992,7 +1001,7 @@ func vrlStartCovert(chunks []int, end string) *vrlCovertServer {
 			time.Sleep(3 * time.Millisecond)
 		}
 		switch end {
-		case "eof":
+		case "eof", "eof-slow":
 			tc.CloseWrite()
 			<-rdone
 		case "rst":
@@ -1147,6 +1156,9 @@ func vrlRunProxy(pc vrlProxyCase) (events []vrlEv, fin map[string]any, bad []str
 		if pc.End == "eof" && len(pc.Reads) == 0 && pc.WriteFail == 0 && len(dDown) != srv.sent {
 			bad = append(bad, fmt.Sprintf("NothingReadIsLost:down sent=%d delivered=%d", srv.sent, len(dDown)))
 		}
+		if pc.End == "eof-slow" && srv.sawEnd != "eof" {
+			bad = append(bad, fmt.Sprintf("CleanEnd:up the covert's stream ended with %q after %d of the %d bytes reported as relayed", srv.sawEnd, len(srv.received), sum.BytesUp))
+		}
 		if ccl != 2 {
 			bad = append(bad, fmt.Sprintf("BothClosed:client closes=%d", ccl))
 		}
@@ -1217,6 +1229,22 @@ func TestVerifRelayProxy(t *testing.T) {
 			nbad++
 			out.Emit(map[string]any{"kind": "final", "run": i, "mode": "proxy", "what": b, "case": pc, "client": ev})
 		}
+	}
+	// bulk transfer against back-pressure on the REAL TCP leg (the covert side is a kernel socket: what the station has counted as
+	// relayed may still sit in its send queue when the tunnel ends): the covert answers, half-closes, and consumes a 5 MB upload late and
+	// slowly.  Judged on the final observables only (the call log is too long for the trace specification): every byte reported as
+	// relayed up arrives, in order, and the covert sees a clean end of stream.
+	for rep := 0; rep < vEnvInt("VERIF_BULK", 3); rep++ {
+		bulk := vrlProxyCase{Chunks: []int{4}, End: "eof-slow"}
+		for k := 0; k < 160; k++ {
+			bulk.Reads = append(bulk.Reads, vrlOut{32 * 1024, "nil", ""})
+		}
+		_, fin, bad := vrlRunProxy(bulk)
+		for _, b := range bad {
+			nbad++
+			out.Emit(map[string]any{"kind": "final", "run": len(cases) + rep, "mode": "proxy-bulk", "what": b, "fin": fin})
+		}
+		out.Emit(map[string]any{"kind": "bulk", "rep": rep, "fin": fin, "failures": len(bad)})
 	}
 	out.Emit(map[string]any{"kind": "summary", "runs": len(cases), "final_failures": nbad})
 }
